@@ -86,6 +86,9 @@ func run(pr *rules.Property, L *core.Ledger, kf *core.KnownFindings, repo, verif
 		len(p.Pkgs), core.ModPath, repo, len(p.AllFns), p.Skipped)
 	L.Trusts("go/parser, go/types, go/ssa (golang.org/x/tools v0.29.0)")
 	ctx := &rules.Ctx{P: p, L: L, Tier: tier, VerifDir: verif}
+	if os.Getenv("VERIF_DEBUG_VIEW") != "" {
+		ctx.ViewMode = true // development aid: first pass on the inlined views
+	}
 	rules.SetTier(tier)
 	func() {
 		defer func() {
@@ -95,10 +98,45 @@ func run(pr *rules.Property, L *core.Ledger, kf *core.KnownFindings, repo, verif
 		}()
 		pr.Run(ctx)
 	}()
+	// Second pass on the inlined views, only when the first pass leaves something open: the
+	// functions as written stay the reference, the views can only discharge what a private helper
+	// hid from a rule. (Floors are evaluated after the merge.)
+	if L.Open() || floorShort(L) {
+		L2 := core.NewLedger(pr.ID, tier, L.Seed)
+		ctx2 := &rules.Ctx{P: p, L: L2, Tier: tier, VerifDir: verif, ViewMode: true}
+		ok := true
+		func() {
+			defer func() {
+				if r := recover(); r != nil {
+					ok = false
+					L.Note("the pass over the inlined views did not complete (%v); first-pass results kept", r)
+				}
+			}()
+			pr.Run(ctx2)
+		}()
+		if ok {
+			rep, add := L.MergeViewRun(L2)
+			L.Note("second pass over inlined views: %d rule/function group(s) decided there, %d found only there", rep, add)
+		}
+	}
 	if dump {
 		for _, o := range L.Obs {
 			fmt.Printf("%-10s %s  @%s\n    %s\n", o.Status, o.Key(), o.Pos, o.Detail)
 		}
 	}
 	return L.Finish(out, repo, kf, onlyKey, pr.Explanation)
+}
+
+// floorShort: does some rule have fewer obligations than its floor?
+func floorShort(L *core.Ledger) bool {
+	cnt := map[string]int{}
+	for _, o := range L.Obs {
+		cnt[o.Rule]++
+	}
+	for _, f := range L.Floors {
+		if cnt[f.Rule] < f.Min {
+			return true
+		}
+	}
+	return false
 }
